@@ -1,13 +1,13 @@
 SPECIFICATION Spec
 CONSTANTS
   MaxOverloads = 2
-  MaxParams = 2
-  ParamCats <- Cats8
-  IntVals <- EdgeIntVals
+  MaxParams = 1
+  ParamCats <- CatsCo
+  IntVals <- TinyIntVals
   IntVals2 <- TinyIntVals
-  ArgKinds <- PairArgKinds
-  Kinds = {"static"}
-  NameModes <- AltNames
+  ArgKinds <- CoArgKinds
+  Kinds = {"method", "static"}
+  NameModes <- SameNames
   ConstMethods = FALSE
   Fixed <- NoFix
 INVARIANT RefinesAndTies
